@@ -357,6 +357,79 @@ class Calc:
                     out.append(text)
         return out
 
+    # ---------------------------------------------------------------------------------------------
+    def nz_lines(self, p, name, var_tactic, depth=0):
+        """Lean lines proving `have <name> : <raw text of p> ≠ 0` for a polynomial p in variable/atom symbols:
+        clear the prime inverse atoms (a·d = 1), factor the numerator, prove every factor non-zero
+        (factors in the variables only: `var_tactic`; factors ±(1 - exp a): a ≠ 0, recursively)."""
+        if depth > 3:
+            raise CertFailure('non-vanishing proof too deep')
+        p = sp.expand(p)
+        text = self.sym_text(p, raw=True)
+        inv = {}
+        for rec in self.need_nonzero:
+            a = self.by_text.get(f'({rec["text"]})⁻¹')
+            if a is not None:
+                inv[a['sym']] = rec
+        D, Dtext = sp.Integer(1), []
+        for a, rec in inv.items():
+            k = sp.Poly(p, a).degree() if p.has(a) else 0
+            if k > 0:
+                D = D * rec['poly'] ** k
+                Dtext.append(f'(({rec["text"]}) ^ {k})')
+                self.used.add(self.hn_of[rec['hyp']])
+        num = sp.expand(sp.cancel(sp.together(p.subs({a: 1 / rec['poly'] for a, rec in inv.items()}) * D)))
+        if any(num.has(a) for a in inv):
+            raise CertFailure('could not clear inverse atoms')
+        if num == 0:
+            raise CertFailure('coefficient is identically zero')
+        c, factors = sp.factor_list(num)
+        lines = []
+        ftexts, fproofs = [], []
+        exp_atoms = {a['sym']: a for a in self.atoms if a['kind'] == 'exp'}
+        var_syms = set(self.varsym.values())
+        for i, (f, m) in enumerate(factors):
+            fn = f'{name}_f{i}'
+            ft = self.sym_text(f, raw=True)
+            fs = f.free_symbols
+            if fs <= var_syms:
+                lines.append(f'have {fn} : ({ft}) ≠ 0 := by {var_tactic}')
+            else:
+                es = [e for e in fs if e in exp_atoms]
+                if len(es) == 1 and fs - set(es) <= set() and sp.expand(f - (1 - es[0])) == 0:
+                    ea = exp_atoms[es[0]]
+                    lines += self.nz_lines(ea['poly'], fn + 'a', var_tactic, depth + 1)
+                    et = self.sym_text(ea['poly'], raw=True)
+                    lines.append(f'have {fn}b : ({ea["arg"]}) ≠ 0 := by\n    rw [show ({ea["arg"]} : ℝ) = {et} from by ring]; exact {fn}a')
+                    lines.append(f'have {fn} : ({ft}) ≠ 0 := by\n    have := NdeVerif.one_sub_exp_ne_zero {fn}b\n    intro hh_; apply this; linear_combination hh_')
+                elif len(es) == 1 and fs - set(es) <= set() and sp.expand(f - (es[0] - 1)) == 0:
+                    ea = exp_atoms[es[0]]
+                    lines += self.nz_lines(ea['poly'], fn + 'a', var_tactic, depth + 1)
+                    et = self.sym_text(ea['poly'], raw=True)
+                    lines.append(f'have {fn}b : ({ea["arg"]}) ≠ 0 := by\n    rw [show ({ea["arg"]} : ℝ) = {et} from by ring]; exact {fn}a')
+                    lines.append(f'have {fn} : ({ft}) ≠ 0 := by\n    have := NdeVerif.exp_sub_one_ne_zero {fn}b\n    intro hh_; apply this; linear_combination hh_')
+                else:
+                    raise CertFailure(f'no non-vanishing argument for the factor {f}')
+            ftexts.append(f'(({ft}) ^ {m})')
+            fproofs.append(f'(pow_ne_zero {m} {fn})')
+        ct = self.sym_text(c, raw=True)
+        prod_text, prod_proof = f'({ct})', f'(by norm_num : ({ct} : ℝ) ≠ 0)'
+        for t_, pr in zip(ftexts, fproofs):
+            prod_text, prod_proof = f'({prod_text} * {t_})', f'(mul_ne_zero {prod_proof} {pr})'
+        Dt = '(1:ℝ)'
+        for d_ in Dtext:
+            Dt = f'({Dt} * {d_})'
+        numf = c
+        for f, m in factors:
+            numf = numf * f ** m
+        Q, rem = self.reduce(p * D - sp.expand(numf))
+        if rem != 0:
+            raise CertFailure('numerator identity failed', rem)
+        cert = self.cert_text_raw(Q)
+        lines.append(f'have {name}_id : ({text}) * {Dt} = {prod_text} := by linear_combination {cert}')
+        lines.append(f'have {name} : ({text}) ≠ 0 := NdeVerif.ne_zero_of_mul_eq {name}_id {prod_proof}')
+        return lines
+
     def _has_pyth(self, sa, ca):
         return (sa['sym'], ca['sym']) in self._pyth
 
